@@ -20,7 +20,7 @@ func init() {
 		Level: "fault_enumeration",
 		Rule: "all chains of <=2 (thorough <=3 over a reduced alphabet) steps over a 33-step alphabet (property calls with arguments, operator property calls, user methods, absent and non-callable properties, literal calls returning value/nil, " +
 			"raising each of 11 error kinds explicitly and failing naturally, variable call) x 6 receivers x 11 accessors, plus the chain without any step over 13 receivers (incl. results of earlier try chains, successful and failed, a function, prototypes); each wrapped chain `v.try.s1.s2.acc` is compared with what the outcome of the plain chain `v.s1.s2` (same batch) implies, including the stdout trace (skip after failure); " +
-			"non-trivial = chain with at least one failing step or an accessor that distinguishes value from error; distinct = distinct (receiver, steps, accessor); round 7: Receivers also include children of a concrete int and str that carry the object's own methods, and a map with a key spelled like a property (known finding).",
+			"non-trivial = chain with at least one failing step or an accessor that distinguishes value from error; distinct = distinct (receiver, steps, accessor); round 7: Receivers also include children of a concrete int and str that carry the object's own methods, and a map with a key spelled like a property (known finding).; round 8: One try chain written once is evaluated for receivers r1, r2, r1 (132 chains x 4 accessors x 20 receiver pairs); steps are also called with nil arguments.",
 		Assumptions: []string{
 			"steps named like the Either API itself (val, err, A, or, ...) are not generated; infix operators applied to the wrapper are not of the form v.try.f and are not generated",
 		},
